@@ -827,6 +827,9 @@ func (d *driver) selftest(active []string) (n int, mismatches map[string]int, er
 	if d.tier == "thorough" {
 		nseeds = 48
 	}
+	if v, err := strconv.Atoi(os.Getenv("VERIF_SELFTEST_SEEDS")); err == nil && v > 0 {
+		nseeds = v // development: a large determinism self-test after a new seam or fault kind
+	}
 	var seeds []uint64
 	for i := 0; i < nseeds; i++ {
 		seeds = append(seeds, core.Mix(d.seed^0x5e1f7e57, uint64(i)))
@@ -854,7 +857,7 @@ func (d *driver) selftest(active []string) (n int, mismatches map[string]int, er
 					return
 				}
 				w.send(map[string]any{"op": "seeds", "prop": d.prop, "tier": d.tier, "seeds": seeds})
-				recs, crashed, hung := w.finish(180 * time.Second)
+				recs, crashed, hung := w.finish(time.Duration(180+len(seeds)/4) * time.Second)
 				mu.Lock()
 				defer mu.Unlock()
 				if hung {
